@@ -16,8 +16,9 @@ RULE = ('multi-reference inputs (1-4 references, tandem repeats in 50 %, so seve
         'independent scan of every reference x strand through the real OpticalMap.getInitialAlignment, not taken from the bus); the first-pass record has the '
         'maximum confidence among the query\'s non-empty first-pass candidates and the pairs of a candidate attaining '
         'it; a query with a positive-confidence candidate has a record; second-pass file likewise per query (best over '
-        'its fragments\' candidates); best mode: ids strictly ascending and the id set equals the ids with a first- or '
-        'second-pass record in the all-mode run. Non-trivial = query with >= 2 non-empty candidates; distinct by hash.')
+        'its fragments\' candidates); best mode: ids strictly ascending, the id set equals the ids with a first- or '
+        'second-pass record in the all-mode run, and a query that is not joined gets the higher-confidence one of its '
+        'first-/second-pass records (what the option help promises). Non-trivial = query with >= 2 non-empty candidates; distinct by hash.')
 ASSUMPTIONS = ['exact ties in confidence between different candidates are counted and only the confidence is compared',
                'ties of primary peak scores at the peaksCount cut are skipped for the seed-origin clause']
 MINIMUMS = {'first-pass-queries-judged': {'quick': 600, 'thorough': 15000}, 'queries-with-2+-nonempty-candidates': {'quick': 300, 'thorough': 4000},
@@ -157,6 +158,23 @@ def judge(case, wd, sh):
     if set(bq) != allids:
         viol.append(('best-mode-id-set-differs', 'best mode has records for %s; all mode has first/second-pass records for %s' % (
             sorted(set(bq) - allids)[:6] or 'no extra ids', sorted(allids - set(bq))[:6] or 'no missing ids'), {'mode': 'best'}))
+    a1 = {r['q']: r for r in runs['all'].get('_1', [])}
+    a2 = {r['q']: r for r in runs['all'].get('_2', [])}
+    joined_ids = {r['q'] for r in runs['all'].get('', [])}
+    for r in runs['best']['']:
+        if r['q'] in joined_ids:
+            continue
+        parts = [x for x in (a1.get(r['q']), a2.get(r['q'])) if x is not None]
+        if not parts:
+            continue
+        sh.count('best-mode-unjoined-records-judged')
+        top = max(p['conf'] for p in parts)
+        if len(parts) == 2 and abs(parts[0]['conf'] - parts[1]['conf']) < 0.0101:
+            sh.count('best-mode-pass-ties-skipped')
+            continue
+        if abs(r['conf'] - top) > 0.0101 or not any(p['raw'][2:12] + p['raw'][13:] == r['raw'][2:12] + r['raw'][13:] for p in parts if abs(p['conf'] - top) < 0.0101):
+            viol.append(('best-mode-record-is-not-the-better-pass-record', 'query %s is not joined; best mode reports confidence %.2f on ref %s but its first-/second-pass records have %s' % (
+                r['q'], r['conf'], r['r'], [(p['r'], p['conf'], p['rest']) for p in parts]), {'query': r['q'], 'mode': 'best'}))
     if runs['all'].get('_1') is not None and [r['raw'][1:] for r in runs['all']['_1']] != [r['raw'][1:] for r in runs['separate']['']]:
         viol.append(('all_1-differs-from-separate-main', 'first-pass file of all mode differs from the main file of separate mode', {'mode': 'all'}))
     for key, what, focus in viol[:4]:
@@ -172,7 +190,7 @@ def run_shard(spec):
     sh = Shard()
     for i in range(spec['cases']):
         rng = rng_for('C05', spec['seed'], spec['shard'], i)
-        case = gen.pipeline_case(rng, ['clean', 'noisy', 'noisy', 'chimeric', 'indel', 'partial'], nref=rng.randint(1, 4),
+        case = gen.pipeline_case(rng, ['clean', 'noisy', 'noisy', 'chimeric', 'translocation', 'indel', 'partial'], nref=rng.randint(1, 4),
                                  param_prob=0.0, ref_kw={'repeats': rng.random() < 0.5})
         if rng.random() < 0.5:
             gen.add_nearfull(rng, case)
